@@ -107,6 +107,28 @@ Theorem C14_insertion_inner_segments `{Sig} : forall E n ks e nds ts c w cnt w' 
 Proof. exact insert_vertices_inner. Qed.
 Print Assumptions C14_insertion_inner_segments.
 
+(** Non-vacuity: the two-dart edge (1 | 2) with 1 -> 3 and 2 -> 4, two positions and the spare darts 5 6 | 7 8 meet the
+    premises of the pure specification, and the pure function gives 1 -> 5 -> 6 -> 3, 2 -> 7 -> 8 -> 4, glued
+    2 | 6, 7 | 5, 8 | 1. *)
+Definition c14_edge : img := fun i d =>
+  if i =? 1 then (if d =? 1 then 3 else if d =? 2 then 4 else 0)
+  else if i =? 0 then (if d =? 3 then 1 else if d =? 4 then 2 else 0)
+  else if i =? 2 then (if d =? 1 then 2 else if d =? 2 then 1 else 0)
+  else 0.
+Example C14_inner_premises :
+  [5; 6] <> [] /\ length [5; 6] = length [7; 8] /\
+  NoDup (1 :: c14_edge 2 1 :: c14_edge 1 1 :: c14_edge 1 (c14_edge 2 1) :: [5; 6] ++ [7; 8]) /\
+  c14_edge 1 1 <> 0 /\ c14_edge 2 1 <> 0 /\ c14_edge 1 (c14_edge 2 1) <> 0.
+Proof.
+  repeat split; try discriminate; try reflexivity.
+  cbn. repeat (constructor; [cbn; intros Q; repeat (destruct Q as [Q|Q]; [discriminate Q|]); exact Q|]). constructor.
+Qed.
+Example C14_inner_result :
+  let f' := insert_pure c14_edge 1 [5; 6] [7; 8] in
+  (f' 1 1, f' 1 5, f' 1 6) = (5, 6, 3) /\ (f' 1 2, f' 1 7, f' 1 8) = (7, 8, 4) /\
+  (f' 2 2, f' 2 6, f' 2 7, f' 2 5, f' 2 8, f' 2 1) = (6, 2, 5, 7, 1, 8).
+Proof. vm_compute. repeat split. Qed.
+
 (** Tie to the source: [insert_vertex_on_edge] -- the program of the four theorems above -- is, verbatim, the program that
     tools/tr_kern.py regenerates from cell_insertion/vertices.rs on every run (Map2/GenKern.v). *)
 From HC Require Import Map2.GenKern Map2.GenKernLaws.
